@@ -65,7 +65,7 @@ def val_eq(I, a, b):
     return a == b
 
 
-def roundtrip(run, repo, label, specs, write_date=False, as_dict=False, fmt='list'):
+def roundtrip(run, repo, label, specs, write_date=False, as_dict=False, fmt='list', supp=None):
     m = repo.module(TD)
     wfn, rfn = m.functions.get('write_thermdat'), m.functions.get('read_thermdat')
     if wfn is None or rfn is None:
@@ -86,7 +86,29 @@ def roundtrip(run, repo, label, specs, write_date=False, as_dict=False, fmt='lis
     I.native['datetime.datetime.now'] = now
     species = [make_species(I, i, *sp) for i, sp in enumerate(specs)]
     coll = DictV({sp.attrs['name']: sp for sp in species}) if as_dict else ListV(list(species))
-    text = I.call_function(m, wfn, [], {'nasa_species': coll, 'write_date': write_date})
+    wkw = {'nasa_species': coll, 'write_date': write_date}
+    expect = list(species)
+    if supp is not None:
+        # supplementary entries: records of another species as write_thermdat itself lays them out, and a comment
+        # block; both with and without a final newline (documented options, any combination)
+        data_nl, txt, txt_nl = supp
+        extra = make_species(I, 9, 5, None, [(1, 1), (1, 2)], (5, 6, 6))
+        if data_nl is not None:
+            t0 = I.call_function(m, wfn, [], {'nasa_species': ListV([extra]), 'write_date': False})
+            if isinstance(t0, Raised) or not isinstance(t0, (SegStr, str)):
+                return {'I': I, 'species': species, 'text': t0, 'read': None, 'built': built, 'write_error': t0}
+            recs = I.seg(t0).splitlines()[2:6]
+            sd = SegStr([])
+            for r_ in recs:
+                sd = sd + r_
+            if not data_nl:
+                sd = sd.strip('rstrip', '\n')
+            wkw['supp_data'] = sd
+            expect = [extra] + expect
+        if txt:
+            wkw['supp_txt'] = '! species fitted in this work' + ('\n' if txt_nl else '')
+    text = I.call_function(m, wfn, [], wkw)
+    species = expect
     res = {'I': I, 'species': species, 'text': text, 'read': None, 'built': built}
     if isinstance(text, Raised) or not isinstance(text, (SegStr, str)):
         res['write_error'] = text
@@ -298,6 +320,28 @@ def check(run, repo):
                     continue
                 layout_rules(run, repo, res, label)
                 compare_species(run, repo, res, label)
+    # supplementary data / comment block in every combination of presence and final newline
+    for data_nl, txt, txt_nl in ((True, False, False), (False, False, False), (None, True, True), (None, True, False),
+                                 (True, True, True), (False, True, True), (True, True, False), (False, True, False)):
+        label = 'supp_data=%s supp_txt=%s' % (
+            {None: 'absent', True: 'ends with newline', False: 'no final newline'}[data_nl],
+            'absent' if not txt else ('ends with newline' if txt_nl else 'no final newline'))
+        res = roundtrip(run, repo, label, [multi[0]], supp=(data_nl, txt, txt_nl))
+        n_cases += 1
+        if 'write_error' in res:
+            run.fail('TABLE.write', 'thermdat.write_thermdat', 'raises', '[%s] writing raises %s'
+                     % (label, show(res['write_error'])), repo.module(TD), repo.module(TD).functions['write_thermdat'])
+            continue
+        # every record keeps a line of its own
+        recs = [ln for ln in res['lines'] if len(ln.fields()) and not (ln.segs[0].kind == 'lit' and
+                                                                      ln.segs[0].text.startswith('!'))]
+        shared = [ln for ln in res['lines'] if '!' in ''.join(s_.text for s_ in ln.segs if s_.kind == 'lit')
+                  and len(ln.fields())]
+        run.check(not shared, 'TABLE.records', 'thermdat.write_thermdat', 'supplementary blocks on their own lines',
+                  '[%s] a record shares its line with the comment block: %s' % (label, show(shared[0], 160) if shared
+                                                                               else ''),
+                  repo.module(TD), repo.module(TD).functions['write_thermdat'])
+        compare_species(run, repo, res, label, ' [%s]' % label)
     run.floor('thermdat cases', n_cases, 30)
     run.extra['cases'] = n_cases
     # record lines must never be classified by a test that depends on user-controlled text
